@@ -92,13 +92,20 @@ func StringEscape(a String, ascii bool) string {
 }
 
 // standard golang strings.Fields doesn't have a 'first N' argument
+// isSpace reports whether c is white space for str.split and
+// str.strip: go's unicode.IsSpace plus the four ASCII separators
+// U+001C..U+001F, which python counts as white space too
+func isSpace(c rune) bool {
+	return unicode.IsSpace(c) || (c >= 0x1c && c <= 0x1f)
+}
+
 func fieldsN(s string, n int) []string {
 	out := []string{}
 	cur := []rune{}
 	for _, c := range s {
 		//until we have covered the first N elements, multiple white-spaces are 'merged'
 		if n < 0 || len(out) < n {
-			if unicode.IsSpace(c) {
+			if isSpace(c) {
 				if len(cur) > 0 {
 					out = append(out, string(cur))
 					cur = []rune{}
@@ -108,7 +115,7 @@ func fieldsN(s string, n int) []string {
 			}
 			//until we see the next letter, after collecting the first N fields, continue to merge whitespaces
 		} else if len(out) == n && len(cur) == 0 {
-			if !unicode.IsSpace(c) {
+			if !isSpace(c) {
 				cur = append(cur, c)
 			}
 			//now that enough words have been collected, just copy into the last element
@@ -258,7 +265,11 @@ func (a String) M__iadd__(other Object) (Object, error) {
 }
 
 func (a String) M__mul__(other Object) (Object, error) {
-	if b, ok := convertToInt(other); ok {
+	b, ok, err := repeatCount(other)
+	if err != nil {
+		return nil, err
+	}
+	if ok {
 		if _, err := repeatLength(len(a), b); err != nil {
 			return nil, err
 		}
@@ -712,7 +723,12 @@ func (s String) Split(args Tuple, kwargs StringDict) (Object, error) {
 		if v == "" {
 			return nil, ExceptionNewf(ValueError, "empty separator")
 		}
-		vs = strings.SplitN(string(s), string(v), int(max)+1)
+		// a negative maxsplit (-1 is the documented one) means no limit
+		n := -1
+		if max >= 0 {
+			n = int(max) + 1
+		}
+		vs = strings.SplitN(string(s), string(v), n)
 	case NoneType:
 		vs = fieldsN(string(s), int(max))
 	default:
@@ -753,7 +769,7 @@ func stripFunc(args Tuple) (func(rune) bool, error) {
 	if err != nil {
 		return nil, err
 	}
-	f := unicode.IsSpace
+	f := isSpace
 	switch v := pyval.(type) {
 	case String:
 		chars := []rune(string(v))
